@@ -751,12 +751,15 @@ func (e *Engine) possibleCallees(c *ssa.CallCommon) []*ssa.Function {
 // effects of calling f as seen by a caller (declared modifies override inference)
 func (e *Engine) calleeEffects(f *ssa.Function, c *ssa.CallCommon) map[string]int {
 	fc := e.contractOf(f)
-	if fc != nil && (fc.HasMod || len(fc.Updates) > 0 || f.Blocks == nil || !e.inRepo(f)) {
+	if fc != nil && (fc.HasMod || len(fc.Updates) > 0 || len(fc.Inits) > 0 || f.Blocks == nil || !e.inRepo(f)) {
 		out := map[string]int{}
 		for h := range e.resolveModifies(fc, f) {
 			out[h] = modAny
 		}
 		for _, u := range fc.Updates {
+			out[e.ghostHeap(u.Label)] = modAny
+		}
+		for _, u := range fc.Inits {
 			out[e.ghostHeap(u.Label)] = modAny
 		}
 		if fc.HasMod || f.Blocks == nil || !e.inRepo(f) {
